@@ -21,7 +21,9 @@ import numpy as np
 from fractions import Fraction
 from harness import util, dyn
 
-THEOREMS = ['C12_factor_homomorphism', 'C12_welldim_homogeneous', 'C12_scale_independence']
+THEOREMS = ['C12_factor_homomorphism', 'C12_welldim_homogeneous', 'C12_scale_independence', 'C12_columns_homogeneous',
+            'C12_nodal_terms_homogeneous', 'C12_step_covariant', 'C12_trajectory_covariant', 'C12_log_pressure_shift',
+            'C12_p_over_p0_invariant', 'C12_p_over_p0_invariant_R', 'C12_hyps_satisfiable']
 LEVEL = 'proof'
 LEVEL_TEXT = ('Coq theorems for every field and all non-zero scales: factor is a group homomorphism Z^4 -> F*; EVERY '
               'dimensionally well-typed expression of field operations is scale-covariant (hence re-dimensionalised '
@@ -77,10 +79,9 @@ def _rand_scale(rng):
 
 
 def _scales(ctx, n):
-    out = [_rand_scale(ctx.rng) for _ in range(n)]
-    if ctx.tier != 'quick':
-        out.append([1.0, 1.0, 1.0, 1.0])
-    return out
+    """n random scales plus plain SI (1 m, 1 s, 1 kg, 1 K): under SI a raw SI magnitude that bypasses the scale is
+    'right', under every other scale it is wrong - so a bypass cannot hide behind factors that happen to be tiny."""
+    return [_rand_scale(ctx.rng) for _ in range(n)] + [[1.0, 1.0, 1.0, 1.0]]
 
 
 def generate(ctx):
@@ -94,6 +95,8 @@ def generate(ctx):
     yield 'units', {'scale': 'default', 'seed': seed()}
     for K in ([1, 3] if quick else [1, 2, 3, 5, 8]):
         yield 'sigma_homog', {'K': K, 'scale': _rand_scale(rng), 'seed': seed()}
+    for K in ([1, 3] if quick else [1, 2, 3, 4, 6]):
+        yield 'nodal_homog', {'K': K, 'scale': _rand_scale(rng), 'seed': seed(), 'va': int(rng.integers(0, 2))}
     for _ in range(3 if quick else 12):
         yield 'expr', {'scale': _rand_scale(rng), 'seed': seed()}
     # whole-model oracles
@@ -595,6 +598,23 @@ def r_sigma_homog(ctx, a):
         ctx.corr(f'get_geopotential_diff on rescaled inputs vs scaled model sparse={sparse}', f(cR * Rgas, cT * T), rhs, scale=s_, tol_rel=1e-12)
 
 
+def r_nodal_homog(ctx, a):
+    """the nodal primitive-equation terms of Model/PrimEq.v (tied to the code by C04) executed on rescaled inputs:
+    exact covariance in Q with the dimension assignment of Model/Scaling.v."""
+    m = M(); sc = m['sc']
+    rng = np.random.Generator(np.random.PCG64(a['seed']))
+    K = a['K']; b = util.uneven_boundaries(rng, K); sv = _scale_vec(a['scale'])
+    ls = np.log(sc.SigmaCoordinates(b).centers)
+    col = lambda: [float(v) for v in util.small_rationals(rng, (K,))]
+    arrs = [ls, b, [float(v) for v in 250 + rng.integers(-20, 21, size=K)], [287.0, 2.0 / 7.0], col(), col(), col(), col(), col(),
+            [float(v) for v in util.small_rationals(rng, (4,))], sv]
+    mo = ctx.model.call(6, [K, a['va']], arrs)
+    n = len(mo) // 2
+    ctx.exact('model: nodal temperature/pressure/momentum terms are covariant with the dimension assignment (exact)',
+              [str(v) for v in mo[:n]], [str(v) for v in mo[n:]])
+    ctx.exact('model: nodal terms non-trivial', bool(any(v != 0 for v in mo[n:])), True)
+
+
 # ---------------------------------------------------------------------------
 # dimension typing of expressions (model level, exact): well-typed => covariant; ill-typed rejected
 # ---------------------------------------------------------------------------
@@ -764,6 +784,6 @@ def r_ast_scan(ctx, a):
         ctx.notes.append({'literal non-dimensional defaults (informational)': r['literal_defaults']})
 
 
-RUNNERS = {'ast_scan': r_ast_scan, 'units': r_units, 'sigma_homog': r_sigma_homog, 'expr': r_expr, 'pe': r_pe,
+RUNNERS = {'ast_scan': r_ast_scan, 'units': r_units, 'sigma_homog': r_sigma_homog, 'nodal_homog': r_nodal_homog, 'expr': r_expr, 'pe': r_pe,
            'held_suarez': r_held_suarez, 'shallow_water': r_shallow_water, 'filters': r_filters, 'helpers': r_helpers,
            'init_states': r_init_states, 'radiation': r_radiation}
